@@ -117,6 +117,12 @@ def build_nvref(name):
     ex = os.path.join(BUILD, 'extract'); os.makedirs(ex, exist_ok=True)
     ok, log = coq_make(['NV/Extract/Ex%s.vo' % name.upper()])
     ml = os.path.join(ex, 'ex_%s.ml' % name)
+    if ok and not os.path.exists(ml):
+        # .vo is current but its side effect (the .ml) is gone (fresh build dir): force the extraction to run again
+        vo = os.path.join(COQ, 'NV', 'Extract', 'Ex%s.vo' % name.upper())
+        if os.path.exists(vo):
+            os.unlink(vo)
+        ok, log = coq_make(['NV/Extract/Ex%s.vo' % name.upper()])
     if not ok or not os.path.exists(ml):
         raise RuntimeError('extraction of %s failed:\n%s' % (name, log[-3000:]))
     drv = os.path.join(ex, 'drv_%s.ml' % name)
